@@ -218,6 +218,7 @@ RULES = [
 def rule_inventory(ctx):
     from . import inventory
     inventory.check(ctx, ['file:event_buffer', 'file:event_slot'])
+    inventory.check_narrowing(ctx)
 
 
 RULES.append(("C17.e", "state-mutation inventory: no new site that changes the content of the state this property rests on", rule_inventory))
